@@ -342,7 +342,7 @@ func TestVerifX02Flow(t *testing.T) {
 				}
 			}
 			// near misses of the program name itself
-			for _, q := range []string{p.Name + "/", p.Name + " ", p.Name[:len(p.Name)-1], p.Name + "x", strings.ToUpper(p.Name), "x/" + p.Name} {
+			for _, q := range []string{"", "/", p.Name + "/", p.Name + " ", p.Name[:len(p.Name)-1], p.Name + "x", strings.ToUpper(p.Name), "x/" + p.Name, p.Name[strings.LastIndex(p.Name, "/")+1:]} {
 				known := false
 				for _, pp := range in.Progs {
 					known = known || pp.Name == q
@@ -439,21 +439,24 @@ func TestVerifX02Valid(t *testing.T) {
 				var i int
 				fmt.Sscan(m[1], &i)
 				rec["blamed"] = i + 1
-				if i >= 0 && i < len(c.Records) {
-					// the problems the validator itself reports for the blamed record
-					var verr error
-					x02Guard(func() { verr = ValidateChartConfig(c.Records[i]) })
-					rec["nprob"] = x02CountErrs(verr)
-					// ... all of which must be in the message
-					all := true
-					if j, ok := verr.(interface{ Unwrap() []error }); ok {
-						for _, e := range j.Unwrap() {
-							all = all && strings.Contains(err.Error(), e.Error())
-						}
-					}
-					rec["all_in_msg"] = all
-				}
 			}
+			// per record: the number of problems the validator itself reports, and
+			// whether every one of them is in the message of generate
+			per := []rt.M{}
+			for _, r := range c.Records {
+				var verr error
+				x02Guard(func() { verr = ValidateChartConfig(r) })
+				all := true
+				if j, ok := verr.(interface{ Unwrap() []error }); ok {
+					for _, e := range j.Unwrap() {
+						all = all && strings.Contains(err.Error(), e.Error())
+					}
+				} else if verr != nil {
+					all = strings.Contains(err.Error(), verr.Error())
+				}
+				per = append(per, rt.M{"n": x02CountErrs(verr), "inmsg": all})
+			}
+			rec["per"] = per
 		default:
 			rec["err"] = false
 			rec["nprog"] = len(ucfg.Programs)
